@@ -418,6 +418,13 @@ def c02_group_equal_to_the_content_of_an_earlier_group():
     return ok1 and ok2, dict(printed=t, literal_case=info)
 
 
+def c02_function_suffix_reordered():
+    """D68: 'function f(x) bind(c, name='ff') result(r)' is printed with RESULT first (Suffix.tostr, order pinned by tests)"""
+    t = _printed("function f2(x) bind(c, name='ff') result(r)\nreal x, r\nend function f2\n")
+    line = t.splitlines()[0]
+    return line.upper().index("BIND") < line.upper().index("RESULT"), dict(printed=line)
+
+
 def c06_named_end_of_unnamed_unit():
     """D43 (fixed)"""
     return _only_syntax_error("block data\nend block data foo\n")
